@@ -467,7 +467,11 @@ def case_init(tag, pad=3, funcs=0, sameline=False):
     ln = m.line
     if sameline:
         m.text("int hs(int k) { x_ = k; return x_ + 1; } ")
-    m.text("mixed g_ = 10 / z_;\nint go() { return 1; }\n")
+    m.text("mixed g_ = 10 / z_;\n")
+    if sameline == 2:
+        # ... and the same again on the next line (the failing initialiser is the FIRST one)
+        m.text("int ht(int k) { x_ = k; return x_ + 2; } mixed g2_ = 7 + x_;\n")
+    m.text("int go() { return 1; }\n")
     p, o = "%s/m.c" % d.lstrip("/"), "%s/m" % d
     exp = "expect kind=plain phase=load file=%s lines=%d-%d program=%s object=%s trace=#global_init#@%s@%s@%s@%d-%d" % (
         p, ln, ln, p, o, p, o, p, ln, ln)
@@ -985,7 +989,7 @@ class C18(Prop):
                 continue
             if rng.chance(1, 20):
                 out.append(E.Case("g%d" % i, case_init_pair(tag, pad=rng.range(0, 300)) if rng.chance(1, 3) else
-                                  case_init(tag, pad=rng.range(0, 300), funcs=rng.range(0, 4), sameline=rng.chance(1, 3)),
+                                  case_init(tag, pad=rng.range(0, 300), funcs=rng.range(0, 4), sameline=rng.choice([False, False, True, 2])),
                                   {"fail": "init", "origin": "generated"}))
                 continue
             big = rng.chance(1, 12) if tier != "thorough" else rng.chance(1, 10)
@@ -1094,6 +1098,7 @@ class C18(Prop):
         mk("init-after-functions", case_init("b_init2", pad=40, funcs=3), fail="init")
         mk("init-same-line-as-function", case_init("b_init5", pad=4, funcs=1, sameline=True), fail="init")
         mk("init-same-line-only", case_init("b_init6", pad=0, funcs=0, sameline=True), fail="init")
+        mk("init-same-line-twice", case_init("b_init7", pad=2, funcs=1, sameline=2), fail="init")
         mk("init-after-other-compile", case_init_pair("b_init3", pad=3), fail="init")
         mk("init-after-other-compile-far", case_init_pair("b_init4", pad=300), fail="init")
         for v in ("again", "self", "back"):
